@@ -84,6 +84,12 @@ func slotConservation(run *ev.Run) {
 				m = "500"
 			}
 			mu.Unlock()
+			if m == "cut-once" {
+				if e.Kind == "blob" && e.Method == "GET" && e.Range == "" {
+					return (&modelreg.Plan{Faults: []*modelreg.Fault{{Action: fmt.Sprintf("cut:%d", len(layer.Content)/2)}}}).InterceptOn(h, e, rw, r)
+				}
+				return false
+			}
 			switch m {
 			case "500":
 				rw.WriteHeader(500)
@@ -109,7 +115,7 @@ func slotConservation(run *ev.Run) {
 		nops := 4 + rng.Intn(9)
 		for s := 0; s < nops; s++ {
 			ctx, cancel := context.WithTimeout(context.Background(), 20*time.Second)
-			op := []string{"head-ok", "get-500", "head-reset", "blob-abandoned", "blob-cancelled", "push-unreplayable-500", "push-unreplayable-reset", "head-404", "blob-read-all"}[rng.Intn(9)]
+			op := []string{"head-ok", "get-500", "head-reset", "blob-abandoned", "blob-cancelled", "push-unreplayable-500", "push-unreplayable-reset", "head-404", "blob-read-all", "blob-cut-resume"}[rng.Intn(10)]
 			var err error
 			switch op {
 			case "head-ok":
@@ -130,6 +136,21 @@ func slotConservation(run *ev.Run) {
 				if rd, err = rc.BlobGet(ctx, ref, ld); err == nil {
 					_, _ = io.Copy(io.Discard, rd)
 					err = rd.Close()
+				}
+			case "blob-cut-resume":
+				// the body is cut once mid-way; the client resumes with a range request, for which it needs a slot
+				// of the same throttle - while it is the holder of one
+				set("cut-once")
+				var rd io.ReadCloser
+				if rd, err = rc.BlobGet(ctx, ref, ld); err == nil {
+					_, err = io.Copy(io.Discard, rd)
+					_ = rd.Close()
+				}
+				if err != nil && ctx.Err() != nil {
+					run.Violation("api/resume-waits-for-own-slot", fmt.Sprintf("a download whose body was cut once did not finish within 20 s with a throttle of %d and nothing else running: the resume waits for a slot while the response it replaces still holds one", k), map[string]any{"limit": k, "history": append(hist, op), "err": fmt.Sprint(err)})
+				}
+				if err == nil {
+					run.Count("resumed_downloads_completed", 1)
 				}
 			case "blob-abandoned":
 				set("")
